@@ -96,7 +96,15 @@ func Solve(query string, timeoutS int, which []string, needAll bool) *SolveResul
 			cmd := exec.CommandContext(c, args[0], args[1:]...)
 			out, _ := cmd.CombinedOutput()
 			status := "unknown"
-			first := strings.TrimSpace(strings.SplitN(string(out), "\n", 2)[0])
+			first := ""
+			for _, ln := range strings.Split(string(out), "\n") {
+				ln = strings.TrimSpace(ln)
+				if ln == "" || strings.HasPrefix(ln, "WARNING") {
+					continue
+				}
+				first = ln
+				break
+			}
 			switch {
 			case first == "unsat":
 				status = "unsat"
@@ -124,8 +132,8 @@ func Solve(query string, timeoutS int, which []string, needAll bool) *SolveResul
 			if res.Status != "unsat" && res.Status != "sat" {
 				res.Status, res.Solver, res.TimeS, res.Output = r.status, r.name, r.t, r.out
 				if r.status == "sat" {
-					if i := strings.Index(r.out, "\n"); i >= 0 {
-						res.Model = r.out[i+1:]
+					if i := strings.Index(r.out, "sat\n"); i >= 0 {
+						res.Model = r.out[i+4:]
 					}
 				}
 				if !needAll {
